@@ -31,3 +31,10 @@ def wav_insert_then_delete(wav, t, frames):
 def wav_index_shift(wav, t, m):
     """byte distance between the sample positions nearest to t and to t + m samples"""
     return wav._getIndexAtTime(t + m / wav.frameRate) - wav._getIndexAtTime(t)
+
+
+def json_down_up(tgAsDict):
+    """C01 / C03, plain 'json' format: what a textgrid dictionary becomes when converted to the minimal json shape
+    (as written) and converted back (as read); json.dumps / json.loads in between are assumption A3"""
+    from praatio.utilities import textgrid_io
+    return textgrid_io._upconvertDictionaryFromJson(textgrid_io._downconvertDictionaryForJson(tgAsDict))
